@@ -3,7 +3,11 @@
 (`OutcomesFound = true`), i.e. inside the classes `DstarOneWorld = false` / `OutcomeNotCondition = false` of
 `ctfTR_no_internal_error_partial` (lean/Y0/Props/C09.lean §6).
 
-    Y0_REPO=/work/ctftr4/repo /venv/bin/python tools/c09_errsearch.py [n] [seed] [--python]
+    Y0_REPO=/work/ctftr4/repo /venv/bin/python tools/c09_errsearch.py [n] [seed] [--python] [--sig]
+
+--sig: also cross-check the harness's syntactic `miss_all` / `miss_some` (harness/props/c09.py `signature`) against the
+model: no miss <=> OutcomesFound, miss_all <=> D* empty (model: ValueError of Algorithm 2's validator), and every
+exception of the model has a miss.
 
 Generators are biased towards the two classes; every candidate (model answer `err internal`, OutcomesFound) is printed
 and, with --python, replayed on the real y0.
@@ -84,9 +88,16 @@ def main():
     reps = m.ask_many(lines)
     stats = {}
     hits = []
+    sigbad = []
     for k, c in enumerate(cases):
         a = C.parse(reps[2 * k])
         cl = C.parse(reps[2 * k + 1])
+        if "--sig" in sys.argv and a[0] == "ok" and cl[0] == "ok" and not (a[2][0] == "err" and a[2][1] == "invalid"):
+            sg = c09.signature(c)
+            empty = a[2][0] == "err" and a[2][1:] == ["internal", "ValueError"]
+            if ((cl[1] == "true") != (not sg["miss_all"] and not sg["miss_some"]) or empty != sg["miss_all"]
+                    or (a[2][0] == "err" and not (sg["miss_all"] or sg["miss_some"]))):
+                sigbad.append(c)
         if a[0] != "ok" or cl[0] != "ok":
             stats["bad"] = stats.get("bad", 0) + 1
             continue
@@ -103,6 +114,10 @@ def main():
     for k in sorted(stats, key=str):
         print(stats[k], k)
     print("HITS", len(hits))
+    if "--sig" in sys.argv:
+        print("SIGNATURE-MISMATCHES", len(sigbad))
+        for c in sigbad[:5]:
+            print(json.dumps(c))
     seen = set()
     if py:
         C.use_repo()
